@@ -102,14 +102,16 @@ namespace c17
     return m;
   }
 
-  /// triangles: every quad of an nx x ny grid split in two (criss: alternating diagonal)
-  inline MeshSpec tria_grid(int nx, int ny, bool criss)
+  /// triangles: every quad of an nx x ny grid split in two (diag 0: same diagonal everywhere, 1: alternating,
+  /// >= 2: diagonal per quad from a seeded stream => irregular vertex valences 2..8 like an unstructured mesh)
+  inline MeshSpec tria_grid(int nx, int ny, uint32_t diag)
   {
+    Rng dr(diag);
     int n[3] = { nx, ny, 1 }; MeshSpec q = hyper_grid(2, n, false, 1);
     MeshSpec m; m.dim = 2; m.nvc = 3; m.xy = q.xy;
     for(Index c = 0; c < q.nc(); ++c)
     {
-      const Index* v = &q.cells[c * 4]; bool alt = criss && (((c % Index(nx)) + (c / Index(nx))) & 1);
+      const Index* v = &q.cells[c * 4]; bool alt = diag >= 2 ? (dr.below(2) == 1) : (diag == 1 && (((c % Index(nx)) + (c / Index(nx))) & 1));
       if(!alt) { m.cells.insert(m.cells.end(), { v[0], v[1], v[3] }); m.cells.insert(m.cells.end(), { v[0], v[3], v[2] }); }
       else { m.cells.insert(m.cells.end(), { v[0], v[1], v[2] }); m.cells.insert(m.cells.end(), { v[1], v[3], v[2] }); }
     }
@@ -161,8 +163,8 @@ namespace c17
       if(cls == 0)
       {
         int side = std::max(1, int(std::sqrt(double(max_cells) / 2.0)));
-        int nx = szd(1, side), ny = szd(1, side); bool criss = t.flag();
-        m = tria_grid(nx, ny, criss); m.cls = "tgrid"; m.desc.set("nx", nx); m.desc.set("ny", ny); m.desc.set("criss", criss);
+        int nx = szd(1, side), ny = szd(1, side); int dm = t.pick({ 2, 1, 2 }); uint32_t diag = dm < 2 ? uint32_t(dm) : (t.raw() | 2u);
+        m = tria_grid(nx, ny, diag); m.cls = dm < 2 ? "tgrid" : "tgrid-irregular"; m.desc.set("nx", nx); m.desc.set("ny", ny); m.desc.set("diag", (long long)diag);
       }
       else
       {
